@@ -114,6 +114,13 @@ def main():
     log = os.path.join(BUILD, "build-c20.log")
     with open(log, "w") as lf:
         b = subprocess.run(["cargo", "build", "--offline", "--release", "--bin", "c20", "--features", "az"], cwd=os.path.join(ROOT, "harness"), env=env, stdout=lf, stderr=subprocess.STDOUT)
+    az_build = "ok"
+    if b.returncode != 0:
+        # vek may not compile with az + vecN (that is a finding of the feature matrix below, not a machinery error):
+        # fall back to the harness without its az section
+        az_build = "failed: the harness does not build with vek/az enabled; az cast section skipped, see the feature-matrix violations"
+        with open(log, "a") as lf:
+            b = subprocess.run(["cargo", "build", "--offline", "--release", "--bin", "c20"], cwd=os.path.join(ROOT, "harness"), env=env, stdout=lf, stderr=subprocess.STDOUT)
     if b.returncode != 0:
         print("MACHINERY-ERROR property=C20 harness build failed (see %s)" % log)
         subprocess.run("grep -E '^error' -A6 %s | head -40" % log, shell=True)
@@ -155,7 +162,7 @@ def main():
             r["sample_lines"] = r["lines"][30:34]
             r.pop("lines", None)
     out = {"tier": tier, "configurations": results, "wall_s": round(time.time() - t0, 1), "feature_universe": FEATURES, "bases": ["std", "libm"],
-           "toolchain": subprocess.run(["rustc", "--version"], stdout=subprocess.PIPE, text=True).stdout.strip()}
+           "harness_az_build": az_build, "toolchain": subprocess.run(["rustc", "--version"], stdout=subprocess.PIPE, text=True).stdout.strip()}
     fpath = os.path.join(BUILD, "c20_features.json")
     json.dump(out, open(fpath, "w"))
     env2 = dict(os.environ, VX_C20_FEATURES=fpath)
